@@ -86,6 +86,10 @@ def kits():
                           field('r_msg', 3, Q('QMsg'), required=True), field('r_rep', 4, 'string', repeated=True, required=True),
                           field('r_opt', 5, 'int32', optional=True, required=True)]),
         ('get', '/v1/kit/em/{name=shelves/*}'), 'KitEM')
+    out['required-reserved-names'] = (
+        message('KitReserved', [field('license', 1, 'string', required=True), field('from', 2, 'string', required=True),
+                                field('type', 3, 'int32', required=True), field('plain', 4, 'string')]),
+        ('get', '/v1/kit/reserved/{license=licenses/*}'), 'KitReserved')
     out['required-nested-path'] = (
         message('KitNested', [field('a', 1, Q('A'), required=True), field('r_str', 2, 'string', required=True)]),
         ('get', '/v1/kit/nested/{a.b=apps/*}'), 'KitNested')
